@@ -1275,6 +1275,52 @@ def evalf(r: Rat, val, cache=None):
     return n / d if d else float("nan")
 
 
+def range_probe(r: Rat, tries=16, seed=7, domain=None):
+    """(min, max) of r over sampled valuations that respect the declared unit relations and positivity declarations; None if nothing could be evaluated"""
+    rng = random.Random(seed)
+    constrained = set()
+    for rep in SQ_RULES.values():
+        for m in rep:
+            for x, _ in m:
+                constrained.add(x)
+    lo = hi = None
+    for k_try in range(tries):
+        vals = {}
+
+        def val(at, k_try=k_try):
+            if at.id not in vals:
+                if at.id in SQ_RULES:
+                    sq, _ = _eval_poly(SQ_RULES[at.id], val, {})
+                    vals[at.id] = math.sqrt(sq) * rng.choice((1, -1)) if sq >= 0 else float("nan")
+                elif at.id in constrained:
+                    # the first valuations are the corners of the sampled part of the manifold (all dependent directions at their extreme / at zero)
+                    mag = 0.5773 if k_try == 0 else (0.0 if k_try == 1 else rng.uniform(0.0, 0.57))
+                    vals[at.id] = mag * rng.choice((1, -1))
+                else:
+                    l_, h_ = (domain or {}).get(at.name, (0.2, 1.7))
+                    vals[at.id] = rng.uniform(l_, h_) * (1 if (domain and at.name in domain) else rng.choice((1, 1, -1)))
+            return vals[at.id]
+        cache = {}
+        try:
+            v = evalf(r, val, cache)
+        except Exception:
+            continue
+        if v != v or abs(v) == float("inf"):
+            continue
+        inside = True
+        for pp in POSITIVE_POLYS:
+            if all((x in cache) for m in pp for x, _ in m):
+                pv, _ = _eval_poly(pp, val, cache)
+                if not pv > 0:
+                    inside = False
+                    break
+        if not inside:
+            continue
+        lo = v if lo is None else min(lo, v)
+        hi = v if hi is None else max(hi, v)
+    return None if lo is None else (lo, hi)
+
+
 def witness(a: Rat, b: Rat, seed=0, tries=40, domain=None):
     """Search a valuation of the symbol atoms where a != b numerically.
     Returns (valuation dict, a_val, b_val) or None if a and b agree (to 1e-9 relative
